@@ -423,7 +423,7 @@ func judgeC08(c c08Case) (v core.Verdict) {
 
 func TestC08(t *testing.T) {
 	core.Run(t, "C08",
-		"template sets: extends chain of 0-4 links (several spellings), 0-3 import files (importing each other acyclically, shuffled import order), 1-5 block names defined at several precedence levels with parameters+defaults, contexts, default content and nested definitions; yields at top level / in range / in if / in block bodies / in content with shuffled and omitted named arguments, arguments that evaluate to nil, arguments the block does not declare (looked for by parameterless blocks too), contexts and content (content nested in content, assignments from content, visibility of parameters and of block locals); bounded recursive yield; header whitespace; oracle = MiniJet reference interpreter (block-table overlay + dynamic lookup); non-trivial = a name defined at >=2 levels, shuffled or omitted arguments, or content nested in content",
+		"template sets: extends chain of 0-4 links (several spellings; one case in six with prefix-related names /p <- /px <- /pxx), 0-3 import files (importing each other acyclically, shuffled import order), 1-5 block names defined at several precedence levels with parameters+defaults, contexts, default content and nested definitions; yields at top level / in range / in if / in block bodies / in content with shuffled and omitted named arguments, arguments that evaluate to nil, arguments the block does not declare (looked for by parameterless blocks too), contexts and content (content nested in content, assignments from content, visibility of parameters and of block locals); bounded recursive yield; header whitespace; oracle = MiniJet reference interpreter (block-table overlay + dynamic lookup); non-trivial = a name defined at >=2 levels, shuffled or omitted arguments, or content nested in content",
 		genC08, judgeC08)
 }
 
